@@ -9,9 +9,9 @@ ROOT = os.path.dirname(os.path.dirname(os.path.abspath(__file__)))
 T = {
     "C01": ("Hypothesis-generated (configuration, piece) pairs; round-trip oracle on raw messages",
             "Generated search over the tokeniser configuration lattice (all 16 flag combinations round-robin, velocity_bins 1..127, "
-            "pitch ranges, step/note-value sets, 1..4 tracks) and bar-grid pieces; tokenise->encode->decode->detokenise is compared "
+            "pitch ranges, step/note-value sets, 1..12 tracks, tokeniser ppqn, time_signature_range) and bar-grid pieces; tokenise->encode->decode->detokenise is compared "
             "note for note (pitch, onset, duration, binned velocity), bar grid and total duration with a harness-side pairing "
-            "automaton. Bounded exploration, not a proof: pieces of <= 6 bars / <= 10 notes per track.",
+            "automaton. Bounded exploration, not a proof: pieces of <= 6 bars / <= 10 notes per track (thorough: <= 9 bars / 20 notes).",
             "Trusts Hypothesis' generator/shrinker and the harness oracle (pbt/oracles.py); pieces are constructed to satisfy exactly "
             "the statement's input constraints."),
     "C02": ("exhaustive enumeration of the configuration lattice + Hypothesis closure check against tokenise output",
@@ -22,14 +22,17 @@ T = {
             "Lattice bounds as stated in the evidence rule; closure is bounded exploration."),
     "C03": ("Hypothesis-generated pieces x all/random partitions of the bar sequence; differential oracle (chunked vs single call)",
             "Differential check: the same piece is tokenised in one call and in consecutive whole-bar chunks with a threaded state dict "
-            "(every composition of the bar count for <= 6 bars in thorough, random + extremes in quick); both streams must be in the "
+            "(every composition of the bar count for <= 6 bars in thorough, random + extremes in quick); bars come from "
+            "sequences_split_bars, from directly built Bar objects, or are cut out of the raw tracks with Sequence.split (chunks that do not "
+            "restate their signature, optional stray mid-bar signature message); both streams must be in the "
             "vocabulary and detokenise to the same notes, INTERNAL bar ticks and durations per track.",
             "The state dict is treated as opaque; only whole-bar chunking is in scope (as the statement says)."),
     "C04": ("Hypothesis-generated operation histories (op lists over the full public alphabet); invariants + clean-replica differential + direct model",
-            "Model-based history search: op lists over the whole public Sequence alphabet from every freshness state; after every step "
+            "Model-based history search: op lists over the whole public Sequence alphabet (incl. scale with factors below 1 and the sequence as its own meta "
+            "sequence, merge of one object twice, reads before/after edits inside messages_*()) from every freshness state; after every step "
             "readability, passive agreement of the two private views, conversion agreement, equality with a clean replica that only "
             "holds the fresh view(s), and a direct model for simple operations are asserted.",
-            "Reads the private slots _abs/_rel/_abs_stale/_rel_stale from outside; histories <= 30 steps, <= 8 notes."),
+            "Reads the private slots _abs/_rel/_abs_stale/_rel_stale from outside; histories <= 30 steps (thorough <= 60), <= 8 notes; a fifth of the shards runs the library with a non-default PPQN."),
     "C05": ("Hypothesis-generated well-formed multi-channel sequences x step lists; validity-predicate oracle",
             "Generated search with a validity predicate (on-grid, displacement <= max step, pairing automaton without anomalies, no "
             "overlap per channel+pitch, non-note events conserved, survival rule with the narrowest candidate sets).",
